@@ -65,7 +65,11 @@ pub fn gen_endgame_exclusive(r: &mut Rng, seed: u64) -> Scenario {
     // half of the time B never goes away and keeps its connection alive with harmless messages:
     // nothing but the client's own bookkeeping can then get the exclusive piece
     if r.chance(1, 2) { b.chatter_ms = Some(r.range(20_000, 110_000)); b.idle_close_ms = 100_000_000; }
-    let pdesc = vec![json!({"addr": addr(0), "essential": true, "pieces": "all but the exclusive one", "latency_ms": [0, 10]}), json!({"addr": addr(1), "essential": true, "pieces": "all; the exclusive piece is announced by Have some 50..600 ms after connecting", "exclusive_piece": q, "latency_ms": [30, 400], "stays_connected_for_ever": b.chatter_ms})];
+    // a third of the time both answer with the same constant delay: in end game they then finish
+    // the same piece in the same instant, and the loser reports before it has seen the winner's Have
+    let symmetric = r.chance(1, 3);
+    if symmetric { let d = *r.pick(&[5u64, 20, 50]); a.latency_ms = (d, d); b.latency_ms = (d, d); b.timed_haves = vec![(r.range(300, 3000), q)]; }
+    let pdesc = vec![json!({"addr": addr(0), "essential": true, "pieces": "all but the exclusive one", "latency_ms": [a.latency_ms.0, a.latency_ms.1], "same_constant_latency_for_both": symmetric}), json!({"addr": addr(1), "essential": true, "pieces": "all; the exclusive piece is announced by Have some 50..600 ms after connecting", "exclusive_piece": q, "latency_ms": [30, 400], "stays_connected_for_ever": b.chatter_ms})];
     for (k, c) in [a, b].into_iter().enumerate() {
         let c2 = c.clone();
         peers.push(PeerSpec { addr: addr(k), id: peer_id(k), entry: Entry::Dialled { from_announce: 0 }, make: Box::new(move |nth| if nth > 3 { None } else { Some(seeder(c2.clone())) }), chunk: 0, pipe: 1 << 20 });
